@@ -1,17 +1,18 @@
-\* plans: count 3, size 1 KB, memory 2 KB, timer 1 ms (aged steps); params maxCount=3 maxMsgKB=1 memKB=2 timerMs=1
+\* plans with callbacks that edit the packs in place (grow / shrink / same at every flush): count 2, size 1 KB, memory 2 KB
+\* shared by 2 batchers, no timer; params maxCount=2 maxMsgKB=1 memKB=2 timerMs=3600000
 SPECIFICATION Spec
 CHECK_DEADLOCK FALSE
 INVARIANTS PlanOut
 CONSTANTS
   Batchers = {"a", "b"}
   Classes = {"zero", "small", "big"}
-  MaxCount = 3
+  MaxCount = 2
   MaxSize = 2
   MemMax = 4
-  TimerOn = TRUE
+  TimerOn = FALSE
   WithFail = TRUE
   MaxOps = 4
-  Muts = {"same"}
+  Muts = {"same", "grow", "shrink"}
   ResetOnError = TRUE
   AddBeforeChecks = TRUE
   RemoveWhole = TRUE
